@@ -16,7 +16,7 @@ import (
 
 const vhNumProds = 2
 const vhMaxTerms = 2   // terms in the first alternative of the root production
-const vhAlt2Terms = 1  // @tier quick=1 thorough=2
+const vhAlt2Terms = 1  // @tier quick=1 thorough=1
 const vhRootKinds = 10 // @tier quick=10 thorough=15
 const vhOtherTerms = 2 // terms of the second production
 
